@@ -293,6 +293,12 @@ def body(c, ctx):
     # globally defined elements invert a Vandermonde matrix per mesh on first use: one instance per case
     # (one mesh, so the instance cache is sound here); all others get a fresh instance per call
     shared_inst = build_element(eld) if glob else None
+    if glob and c['seed'] % 2 == 0 and first_order:
+        # ... and that instance has served before, on a sibling mesh made of the same coordinate array with the cells in reverse order
+        sib = type(m)(m.p, m.t[:, ::-1])
+        if np.array_equal(sib.t, m.t[:, ::-1]):
+            CellBasis(sib, shared_inst, intorder=1)
+            ctx.cls('instance_primed_on_sibling')
     for f in inner[: (4 if glob else 12)]:
         vs = m.facets[:, f]
         P = m.p[:, vs]
